@@ -165,6 +165,8 @@ Inductive pop_op :=
 | Round (draws : list (nat * T))       (* one Mutations.mutation call                           *)
 | MutOne (i k : nat) (u : T)           (* rl_hyperparam_mutation on individual i only            *)
 | Clone (src dst : nat)                (* population[dst] = population[src].clone()              *)
+| LoadInto (src dst : nat)             (* population[src].save_checkpoint(f); population[dst].load_checkpoint(f) *)
+| LoadNew (src dst : nat)              (* population[src].save_checkpoint(f); population[dst] = Algo.load(f)      *)
 | Learn (i : nat)                      (* agent.learn(batch): touches no hyperparameter, optimizer lr or label *)
 | OtherMut (i : nat).                  (* architecture / parameter / activation mutation of individual i:
                                           hyperparameters are not touched, reinit_opt(individual) re-creates
@@ -180,6 +182,17 @@ Fixpoint upd_nth {X} (l : list X) (i : nat) (x : X) : list X :=
 Definition other_mutation (a : agent) : agent :=
   {| a_vals := a_vals a; a_hps := a_hps a; a_opts := map (reinit_opt (a_vals a)) (a_opts a); a_mut := None |}.
 
+(* load_checkpoint, in place: attributes (incl. the label), the registry with its cached values and the
+   optimizer state (param groups with their lr) all come from the checkpoint of [src]; only the wrapper's
+   own lr field is read from the loader's attribute BEFORE the attributes are restored (cosmetic: no param
+   group uses it) *)
+Definition loaded_into (src dst : agent) : agent :=
+  {| a_vals := a_vals src; a_hps := a_hps src;
+     a_opts := map (fun o => {| o_cfg_lr := o_cfg_lr o; o_lr_name := o_lr_name o;
+                                o_wlr := match getv (a_vals dst) (o_lr_name o) with Some v => v | None => o_wlr o end;
+                                o_groups := o_groups o |}) (a_opts src);
+     a_mut := a_mut src |}.
+
 Definition pop_step (pop : list agent) (o : pop_op) : list agent :=
   match o with
   | Round draws => mutation_round pop draws
@@ -189,6 +202,12 @@ Definition pop_step (pop : list agent) (o : pop_op) : list agent :=
   | Clone s d => match nth_error pop s with
                  | Some a => upd_nth pop d a        (* deep copy: same values, own registry *)
                  | None => pop end
+  | LoadInto s d => match nth_error pop s, nth_error pop d with
+                    | Some a, Some b => upd_nth pop d (loaded_into a b)
+                    | _, _ => pop end
+  | LoadNew s d => match nth_error pop s with
+                   | Some a => upd_nth pop d (loaded_into a a)   (* the new agent is constructed from the saved attributes *)
+                   | None => pop end
   | Learn _ => pop
   | OtherMut i => match nth_error pop i with
                   | Some a => upd_nth pop i (other_mutation a)
@@ -257,7 +276,7 @@ Arguments Build_param {T}.
 Arguments Build_hpent {T}.
 Arguments Build_optim {T}.
 Arguments Build_agent {T}.
-Arguments Round {T}. Arguments MutOne {T}. Arguments Clone {T}. Arguments OtherMut {T}. Arguments Learn {T}.
+Arguments Round {T}. Arguments MutOne {T}. Arguments Clone {T}. Arguments OtherMut {T}. Arguments Learn {T}. Arguments LoadInto {T}. Arguments LoadNew {T}.
 Arguments p_min {T}. Arguments p_max {T}. Arguments p_shrink {T}. Arguments p_grow {T}. Arguments p_int {T}.
 Arguments hp_name {T}. Arguments hp_par {T}. Arguments hp_cache {T}.
 Arguments o_cfg_lr {T}. Arguments o_lr_name {T}. Arguments o_wlr {T}. Arguments o_groups {T}.
